@@ -86,6 +86,8 @@ def _mk_explore(pid, seed, tier):
 
     def work(i):
         case = mod.gen_case(seed, i, tier)
+        import common as _common
+        rt0 = _common.REALTIME_HITS[0]
         res = mod.execute(case)
         prev = list(_HIST)
         _HIST.append(i)
@@ -102,6 +104,8 @@ def _mk_explore(pid, seed, tier):
         }
         if out["clauses"]:
             out["hist"] = prev
+        if _common.REALTIME_HITS[0] > rt0:
+            out["realtime"] = True     # an eval was ended by the real-time guard, not by simulated work
         return out
     return work
 
@@ -326,6 +330,11 @@ def cmd_check(pid, tier, n_override=None, nproc=None, budget_s=None):
                 hist = next((r.get("hist") for r in ok if r["i"] == i), None) or []
                 rep = reproduce_with_history(pool, pid, seed, tier, hist, i, clause, nproc) if hist else None
                 if rep is None:
+                    if next((r.get("realtime") for r in ok if r["i"] == i), False):
+                        # ended by the real-time guard once, fine on the second run: a loaded host,
+                        # not a property of /repo (a real hang reproduces)
+                        print("note: case %d was cut off by the real-time guard and ran normally when repeated (slow host)" % i)
+                        continue
                     harness_errors.append("case %d clause %s did not reproduce in a second run" % (i, clause))
                     continue
                 hmin, rr = rep
